@@ -571,8 +571,15 @@ def _soak_task(task):
     vpw = b"victim"
     vw = R.pw_scalar(vpw)
     victim = inst.new("A", vpw, (b"v", b"w"), 12345 % q)
-    vmsg = victim.start()
     fam = inst.kind if inst.small else inst.name
+    vm = T.observe(victim.start)
+    acc.n(transitions=1)
+    if vm != ("ok", RS.message(rp, "A", vw, 12345 % q)):
+        acc.violation("C16/soak/%s/session-differs-from-definition" % fam,
+                      {"what": "the first session of a long history does not produce the message defined by its own arguments",
+                       "replay": {"fn": "soak", "name": name, "n": 0}, "expected": "reference message", "observed": [vm[0], vm[1] if vm[0] != "ok" else "other message"]})
+        return acc
+    vmsg = vm[1]
     for i in range(n):
         pw = b"pw-%d" % (i % 7)
         w = R.pw_scalar(pw)
